@@ -235,18 +235,39 @@ def cbcrt_queries():
     return qs
 
 
+SPLIT_BE = {
+ # back-end sweep result (minisat / cadical / kissat / z3 / cvc5) for the real-core splitting law; None = no verdict at this size
+ ("aes_ct", "cbcenc"): "z3", ("aes_ct", "cbcdec"): "z3", ("aes_ct", "ctr"): "z3", ("aes_ct", "ctrcbc-enc"): None,
+ ("aes_ct", "ctrcbc-dec"): "cvc5", ("aes_ct", "ctrcbc-ctr"): None, ("aes_ct", "ctrcbc-mac"): "z3",
+ ("aes_ct64", "cbcenc"): "z3", ("aes_ct64", "ctrcbc-mac"): "z3",
+ ("aes_ct64", "cbcdec"): None, ("aes_ct64", "ctr"): None, ("aes_ct64", "ctrcbc-enc"): None, ("aes_ct64", "ctrcbc-dec"): None, ("aes_ct64", "ctrcbc-ctr"): None,
+ ("des_ct", "cbcenc", 24): None,
+}
+
+
 def queries():
+    import os
     qs = comp_queries() + des_queries() + chacha_queries() + ghash_poly_queries() + cbcrt_queries()
+    # real-core splitting law (thorough tier; SMT back ends merge the syntactically identical core calls)
     for impl in ("aes_big", "aes_small", "aes_ct", "aes_ct64"):
         for m in AES_MODES:
             length = 48 if m[3] != 3 else 53
             if impl == "aes_ct64" and m[3] in (2, 3, 6):
                 length += 32
-            qs.append(split_q(impl, m, 16, length))
+            be = SPLIT_BE.get((impl, m[0]), "cvc5")
+            if be is None:
+                # differently packed bitsliced batches on the two sides: bit-level proof; two blocks, SAT
+                qs.append(split_q(impl, m, 16, 32 if m[3] != 3 else 37, tier="thorough", backend="kissat"))
+            else:
+                qs.append(split_q(impl, m, 16, length, tier="thorough", backend=be))
     for impl in ("des_tab", "des_ct"):
         for m in DES_MODES:
-            qs.append(split_q(impl, m, 8, 24))
-            qs.append(split_q(impl, m, 24, 24))
+            qs.append(split_q(impl, m, 8, 24, tier="thorough", backend="cvc5"))
+            if SPLIT_BE.get((impl, m[0], 24), "cvc5") is None:
+                qs.append(split_q(impl, m, 24, 16, tier="thorough", backend="kissat"))
+            else:
+                qs.append(split_q(impl, m, 24, 24, tier="thorough", backend="cvc5"))
+    # mode logic over the abstract core (quick tier)
     for impl in ("aes_big", "aes_small", "aes_ct", "aes_ct64"):
         for d in (0, 1):
             qs.append(round_q(impl, d, 1))
@@ -259,7 +280,6 @@ def queries():
                             defs=["-DIMPL=%d" % k, "-DDIR=%d" % d], unwind=258, tier="thorough" if d else "quick",
                             timeout=900 if d else 240, backend=("z3" if k == 2 else None) if d else None,
                             desc="%s_%s.c static round steps == FIPS-197 steps, every state and round key, every lane: %s" % (impl, "dec" if d else "enc", "inv_shift_rows == InvShiftRows; add_round_key,inv_mix_columns == AddRoundKey,InvMixColumns" if d else "shift_rows,mix_columns,add_round_key == ShiftRows,MixColumns,AddRoundKey") + ("; sub_bytes table layer" if k == 2 else "")))
-    for impl in ("aes_big", "aes_small", "aes_ct", "aes_ct64"):
         for m in AES_MODES:
             length = 48 if m[3] != 3 else 53
             if impl == "aes_ct64" and m[3] in (2, 3, 6):
@@ -269,4 +289,19 @@ def queries():
         for m in DES_MODES:
             qs += modes_family(impl, m, 8, 24, True, backend="cadical")
             qs += modes_family(impl, m, 24, 24, True, backend="cadical")
+    # full ciphers (thorough; kept only where a back end reaches a verdict)
+    for impl in ("aes_small", "aes_big", "aes_ct", "aes_ct64"):
+        qs.append(round_q(impl, 0, 10, tier="thorough", backend="kissat"))
+    # development aids (not used by the normal runs)
+    t = os.environ.get("C12_TIER_ONLY")
+    if t:
+        qs = [q for q in qs if q.tier == t]
+    r = os.environ.get("C12_RE")
+    if r:
+        import re
+        qs = [q for q in qs if re.search(r, q.name)]
+    cap = os.environ.get("C12_TO")
+    if cap:
+        for q in qs:
+            q.timeout = min(q.timeout, int(cap))
     return qs
